@@ -6,6 +6,8 @@ ledger + ASan/LSan.  One search per stock comparator / key domain, on a set from
 (zero-filled, owner-initialised) one.  Depth, which 7 keys cannot give, comes from harness/e2_chain.c: every chain
 length 1..N (300 quick, 1000 thorough) x five sorted / alternating insertion orders x {find, lower, insert, remove,
 remove without disposal} x every position at and next to both ends and the middle, each from a rebuilt structure.
+Hidden state, which merging by tree shape would miss: every operation sequence (insert, remove, find, lower, iterate,
+clear) up to depth 6-8 over 2-5 keys replayed without merging and without looking at the structure in between.
 """
 import json, os, subprocess, sys
 from .. import common, build
@@ -96,11 +98,38 @@ def main(tier):
                           {'engine': 'core_vh set chains', 'maxn': v['n'], 'embedded': emb}, dedup='%s|%s|%s' % (name, v['op'], v['detail'].split(':')[0][:30]))
         if rc not in (0, 1) and not viols:
             run.violation('set/%s/sanitizer' % name, 'sanitizer report during chain enumeration: %s' % (err.strip().splitlines()[:4]), {'engine': 'core_vh set chains', 'maxn': maxn, 'embedded': emb, 'stderr': err[-4000:]})
+    # hidden state: every operation sequence up to a depth, not merged by tree shape and not inspected in between (harness/e2_chain.c, "seqs")
+    from concurrent.futures import ThreadPoolExecutor
+    cfgs = [(3, 6, 0), (3, 6, 1), (2, 7, 0)] if run.tier == 'quick' else [(3, 7, 0), (3, 7, 1), (4, 6, 0), (4, 6, 1), (2, 8, 0), (5, 5, 0)]
+    def one_seq(cfg):
+        p = subprocess.run([os.path.join(b, 'core_vh'), 'set', 'seqs'] + [str(x) for x in cfg], stdout=subprocess.PIPE, stderr=subprocess.PIPE, text=True)
+        viols, summary = [], None
+        for line in p.stdout.splitlines():
+            try:
+                o = json.loads(line)
+            except ValueError:
+                continue
+            if 'violation' in o: viols.append(o['violation'])
+            if 'summary' in o: summary = o['summary']
+        return cfg, p.returncode, viols, summary, p.stderr
+    seqs = {}
+    with ThreadPoolExecutor(len(cfgs)) as ex:
+        for cfg, rc, viols, summary, err in ex.map(one_seq, cfgs):
+            name = 'seqs k%d d%d%s' % (cfg[0], cfg[1], '@embedded' if cfg[2] else '')
+            if summary is None:
+                run.violation('set/seqs/crash', '%s died (rc=%d): %s' % (name, rc, err.strip().splitlines()[:3]), {'engine': 'core_vh set seqs', 'cfg': list(cfg), 'stderr': err[-4000:]})
+                exhaustive = False
+                continue
+            seqs[name] = summary
+            transitions += summary['runs']; replays += summary['runs']
+            for v in viols:
+                run.violation('set/seqs/%s' % ('structure' if 'list' in v['detail'] or 'audit' in v['detail'] else 'result'), '%s: %s -> %s' % (name, v['shape'], v['detail']),
+                              {'engine': 'core_vh set seqs', 'cfg': list(cfg)}, dedup='seqs|%s' % v['detail'].split(':')[-1][:40])
     if states < 5 * 1000 and not run.violations and not run.capped:
         raise common.HarnessError('vacuous: only %d states' % states)
     cov = {
         'states': states, 'transitions': transitions, 'traces_validated_against_impl': replays,
-        'samples': samples, 'exhaustive': exhaustive, 'per_domain': per, 'ubsan_reports': ubsan, 'chains': chains,
+        'samples': samples, 'exhaustive': exhaustive, 'per_domain': per, 'ubsan_reports': ubsan, 'chains': chains, 'unmerged_sequences': seqs,
         'explanation': 'every transition is an execution of the real set.c: the structure is rebuilt from its operation history on a fresh set, '
                        'one operation applied, result/size/membership compared with a sorted-array reference, tree+list audited, cleanup ledger checked; '
                        'states are canonical tree shapes (pre-order of key indices); the search runs to a fixpoint so histories of every length over 7 keys are covered',
@@ -111,6 +140,9 @@ def main(tier):
 def replay(obj):
     b = build.build()
     r = obj['replay']
+    if r.get('engine') == 'core_vh set seqs':
+        p = subprocess.run([os.path.join(b, 'core_vh'), 'set', 'seqs'] + [str(x) for x in r['cfg']])
+        return 1 if p.returncode else 0
     if r.get('engine') == 'core_vh set chains' and 'maxn' in r:
         p = subprocess.run([os.path.join(b, 'core_vh'), 'set', 'chains', str(r['maxn']), str(r['embedded'])])
         return 1 if p.returncode else 0
